@@ -43,7 +43,7 @@ type Scenario struct {
 	// ThoroughOnly scenarios run only in the thorough tier; QuickOnly only in the quick tier.
 	ThoroughOnly bool
 	QuickOnly    bool
-	ObsNames   map[int32]string
+	ObsNames     map[int32]string
 	// Direct scenarios are plain exhaustive input enumerations (no scheduler): the
 	// function enumerates shard `shard` of `nshards` and reports through rep.
 	Direct func(rep *DirectReport, shard, nshards int, thorough bool)
